@@ -422,6 +422,13 @@ Proof.
   unfold ins_keep in Hk. apply andb_true_iff in Hk. destruct Hk as [Hk _]. apply andb_true_iff in Hk. tauto.
 Qed.
 
+Lemma ins_from_flows_spec : forall cs,
+  Forall (fun c => (inb c = true /\ is_fin (lp c) = true) /\ In c cs) (ins_from_flows cs).
+Proof.
+  intros cs. apply Forall_forall. intros c Hc. unfold ins_from_flows in Hc. apply filter_In in Hc. destruct Hc as [Hin Hk].
+  unfold ins_keep in Hk. apply andb_true_iff in Hk. destruct Hk as [Hk _]. apply andb_true_iff in Hk. tauto.
+Qed.
+
 (* ---- draws ------------------------------------------------------------------------------------------------------------ *)
 Fixpoint draws_rev (k : nat) (r : list nat) : list (nat * bool) :=
   match k, r with
